@@ -57,6 +57,12 @@ SCEN = [
                '\\Cref{sec:intro} C', {'pack': 'cleveref'}, False),
     ('cref_b', '\\usepackage[poorman]{cleveref}\\YYCleverefInput{/verif/vf/data/b.sed}A \\cref{eq:2} B '
                '\\cref{eq:1} C \\Cref{sec:intro} D', {'pack': 'cleveref'}, False),
+    # language names the filter does not know, in the text and as package option
+    ('unknown_lang', 'A \\foreignlanguage{czech}{B C} D \\selectlanguage{dutch} E \\begin{otherlanguage}{danish}F'
+                     '\\end{otherlanguage}', {'pack': '*'}, True),
+    ('unknown_lang_opt', '\\usepackage[ngerman,czech]{babel}A B \\foreignlanguage{english}{C} D', {'pack': '*'},
+     True),
+    ('unknown_lang_cls', '\\documentclass[danish]{article}\\usepackage[dutch]{babel}A B', {'lang': 'de-DE'}, True),
     ('addmods', '\\documentclass{article}\\usepackage{xcolor,amsthm}A \\textcolor{red}{B} '
                 '\\begin{proof}C\\end{proof}', {}, False),
 ]
